@@ -107,7 +107,130 @@ def judge_c16(plan, result):
     return {"violations": viol, "stats": st}
 
 
-JUDGES = {"C16": judge_c16}
+def _cls(res):
+    r = res.get("r")
+    if r in ("PASS", "FAIL"):
+        return r
+    return "NOVERDICT"
+
+
+def _spec_shape(spec):
+    if not spec:
+        return "?"
+    if spec["kind"] == "module":
+        obj = spec["obj"]["f"] if spec.get("obj") else "anything"
+        return f'module:{spec["subj"]["f"]}:{spec["verb"]}:{spec["imp"]}:{obj}'
+    if spec["kind"] == "layer":
+        n = len(spec["obj"]) if spec.get("obj") else 0
+        return f'layer:{spec["verb"]}:{spec["acc"]}:objs{n}'
+    return f'diagram:{"should_only" if spec["should_only"] else "should"}:{spec["naming"]}'
+
+
+def judge_c15(plan, result):
+    """I1 (history/reuse/permutation/enumeration independence), I2 (purity), I3 (scan
+    determinism). I4/I5 are cross-interpreter comparisons done by the coordinator."""
+    viol = []
+    meta = plan.get("meta") or {}
+    specs = meta.get("specs") or {}
+    archs = meta.get("archs") or {}
+    iso = result.get("isolated") or {}
+    iso_out = iso.get("outcomes") or {}
+    iso_scans = iso.get("scans") or {}
+    st = {"applies": 0, "verdicts": {"PASS": 0, "FAIL": 0, "NOVERDICT": 0}, "scans": 0,
+          "error_text_variations": 0}
+    pr = {}
+    # isolated pass itself must be pure
+    for key, res in iso_out.items():
+        if res.get("r") != "skip" and res.get("ev_before") != res.get("ev_after"):
+            sid = key.split("|")[0]
+            viol.append({"inv": "I2", "sig": f"C15/I2/{_spec_shape(specs.get(sid))}", "step": -1,
+                         "detail": {"phase": "isolated", "key": key, "outcome": res}})
+    first_scan = {}
+    for cid, res in iso_scans.items():
+        first_scan[cid] = res
+    last_on_ev = {}
+    evs_of_obj = {}
+    applies_of_obj = {}
+    for ev in result["log"]:
+        op, res = ev["op"], ev["res"]
+        if op["op"] == "scan":
+            st["scans"] += 1
+            ref = first_scan.setdefault(op["cfg"], res)
+            same = (ref.get("r") == res.get("r")) and (ref.get("snap") == res.get("snap"))
+            if op.get("order"):
+                _bump(pr, "scan_under_planned_order")
+            if not same:
+                a = result["snaps"].get(ref.get("snap"), {})
+                b = result["snaps"].get(res.get("snap"), {})
+                diff = {"modules_only_ref": sorted(set(a.get("modules", [])) - set(b.get("modules", []))),
+                        "modules_only_here": sorted(set(b.get("modules", [])) - set(a.get("modules", []))),
+                        "edges_only_ref": [e for e in a.get("edges", []) if e not in b.get("edges", [])][:20],
+                        "edges_only_here": [e for e in b.get("edges", []) if e not in a.get("edges", [])][:20]}
+                what = "outcome" if ref.get("r") != res.get("r") else (
+                    "modules" if diff["modules_only_ref"] or diff["modules_only_here"] else "imports")
+                viol.append({"inv": "I3", "sig": f"C15/I3/{what}", "step": ev["i"],
+                             "detail": {"cfg": op["cfg"], "reference": {k: v for k, v in ref.items() if k != "served"},
+                                        "here": {k: v for k, v in res.items() if k != "served"}, "diff": diff}})
+            continue
+        if op["op"] != "apply":
+            continue
+        key = op.get("key")
+        sid = key.split("|")[0] if key else None
+        spec = specs.get(sid)
+        got = _cls(res)
+        if res.get("r") == "skip" and res.get("why") == "no-evaluable":
+            continue
+        st["applies"] += 1
+        st["verdicts"][got] += 1
+        if res.get("r") != "skip" and res.get("ev_before") != res.get("ev_after"):
+            viol.append({"inv": "I2", "sig": f"C15/I2/{_spec_shape(spec)}", "step": ev["i"],
+                         "detail": {"phase": "session", "op": op, "outcome": res}})
+        ref = iso_out.get(key)
+        if ref is not None:
+            want = _cls(ref)
+            if want != got:
+                viol.append({"inv": "I1", "sig": f"C15/I1/{_spec_shape(spec)}/{want}-vs-{got}",
+                             "step": ev["i"],
+                             "detail": {"op": op, "spec": spec, "isolated": ref, "in_session": res,
+                                        "arch": archs.get((spec or {}).get("arch"))}})
+            elif got == "FAIL" and ref.get("msg") != res.get("msg"):
+                viol.append({"inv": "I1", "sig": f"C15/I1/{_spec_shape(spec)}/message", "step": ev["i"],
+                             "detail": {"op": op, "spec": spec, "isolated": ref, "in_session": res}})
+            elif got == "NOVERDICT" and (ref.get("cls"), ref.get("msg")) != (res.get("cls"), res.get("msg")):
+                st["error_text_variations"] += 1
+        # reach probes
+        if got == "FAIL" and res.get("msg", "").count("\n") >= 1:
+            _bump(pr, "messages_with_2plus_lines")
+        prev = last_on_ev.get(op["ev"])
+        if prev == "NOVERDICT":
+            _bump(pr, "evaluation_after_error")
+        elif prev == "FAIL":
+            _bump(pr, "evaluation_after_assertion")
+        last_on_ev[op["ev"]] = got
+        evs_of_obj.setdefault(op["obj"], set()).add(op["ev"])
+        applies_of_obj[op["obj"]] = applies_of_obj.get(op["obj"], 0) + 1
+        if spec:
+            if got != "NOVERDICT":
+                _bump(pr, f'{spec["kind"]}_rule_reached_verdict')
+            alias = (spec.get("imp") or spec.get("acc") or "").endswith(("anything", "any_layer"))
+            if alias and applies_of_obj[op["obj"]] == 2:
+                _bump(pr, "alias_rule_reapplied")
+    pr["same_rule_object_on_2plus_evaluables"] = sum(1 for v in evs_of_obj.values() if len(v) > 1)
+    pr["rule_object_applied_3plus_times"] = sum(1 for v in applies_of_obj.values() if v > 2)
+    pr["listing_served_unsorted"] = result["fs"]["unsorted"]
+    pr["unplanned_listings"] = result["fs"]["unplanned"]
+    faults = dict(meta.get("faults") or {})
+    faults["F1_readdir_order_effective_listings"] = result["fs"]["unsorted"]
+    faults["F8_failing_predecessor"] = pr.get("evaluation_after_error", 0) + pr.get(
+        "evaluation_after_assertion", 0)
+    st["faults"] = faults
+    st["probes"] = pr
+    any_fault = any(v for k, v in faults.items())
+    st["nontrivial"] = bool(any_fault and (st["verdicts"]["PASS"] + st["verdicts"]["FAIL"]) > 0)
+    return {"violations": viol, "stats": st}
+
+
+JUDGES = {"C16": judge_c16, "C15": judge_c15}
 
 
 def judge(plan, result):
